@@ -152,7 +152,7 @@ theorem aggAfter_entry (r : Roas) (rel : List Payload) (mintA : AggKey → ObjMe
 
 /-- Every desired aggregate is present afterwards with the desired authorisations. -/
 theorem aggAfter_has (r : Roas) (rel : List Payload) (mintA : AggKey → ObjMeta)
-    (hk : (keys r.agg).Nodup) {d : AggKey × List Payload} (hd : d ∈ toAggregates rel) :
+    (_hk : (keys r.agg).Nodup) {d : AggKey × List Payload} (hd : d ∈ toAggregates rel) :
     ∃ e ∈ aggAfter r rel mintA, e.1 = d.1 ∧ ∀ x, x ∈ d.2 ↔ x ∈ e.2.auths := by
   have hnotRemoved : d.1 ∉ (keys r.agg).filter fun k => decide (k ∉ keys (toAggregates rel)) := by
     intro h
@@ -337,5 +337,163 @@ theorem createUpdates_exact (r : Roas) (hr : r.WF) (cov : Payload → Bool) (rou
             aggNodup := by simp only [r']; rw [h2]; exact a4
             aggNonempty := by simp only [r']; rw [h2]; exact a5
             exclusive := Or.inl (by simp only [r']; exact h1) }
+
+/-! ### Renewal -/
+
+section Renew
+variable {κ : Type} {ν : Type} [DecidableEq κ]
+
+/-- Replace the value of every entry satisfying `P` by `g entry`. -/
+def renewMap (m : List (κ × ν)) (P : κ × ν → Bool) (g : κ × ν → ν) : List (κ × ν) :=
+  putAll m ((m.filter P).map fun e => (e.1, g e))
+
+theorem keys_renew_updates (m : List (κ × ν)) (P : κ × ν → Bool) (g : κ × ν → ν) :
+    keys ((m.filter P).map fun e => (e.1, g e)) = keys (m.filter P) := by
+  simp [keys, List.map_map, Function.comp_def]
+
+theorem renewMap_spec (m : List (κ × ν)) (hk : (keys m).Nodup) (P : κ × ν → Bool) (g : κ × ν → ν) :
+    (keys (renewMap m P g)).Nodup ∧
+    (∀ e ∈ m, (P e = true → (e.1, g e) ∈ renewMap m P g) ∧ (P e = false → e ∈ renewMap m P g)) ∧
+    (∀ e' ∈ renewMap m P g, ∃ e ∈ m, e'.1 = e.1 ∧ ((P e = false ∧ e' = e) ∨ (P e = true ∧ e'.2 = g e))) := by
+  have hsub : (keys (m.filter P)).Nodup := by
+    simp only [keys]
+    exact List.Nodup.sublist (List.Sublist.map _ List.filter_sublist) hk
+  refine ⟨?_, ?_, ?_⟩
+  · exact nodup_keys_putAll hk (by rw [keys_renew_updates]; exact hsub)
+  · intro e he
+    constructor
+    · intro hp
+      exact mem_putAll.mpr (Or.inr (List.mem_map.mpr ⟨e, List.mem_filter.mpr ⟨he, hp⟩, rfl⟩))
+    · intro hp
+      refine mem_putAll.mpr (Or.inl ⟨he, ?_⟩)
+      rw [keys_renew_updates]
+      intro hk'
+      obtain ⟨v, hv⟩ := mem_keys.mp hk'
+      have hm := List.mem_filter.mp hv
+      have : v = e.2 := nodup_keys_unique hk hm.1 (by cases e; exact he)
+      subst this
+      cases e
+      simp_all
+  · intro e' he'
+    rcases mem_putAll.mp he' with ⟨hin, hnot⟩ | hnew
+    · refine ⟨e', hin, rfl, Or.inl ⟨?_, rfl⟩⟩
+      cases hp : P e'
+      · rfl
+      · rw [keys_renew_updates] at hnot
+        exact absurd (mem_keys_of_mem (List.mem_filter.mpr ⟨hin, hp⟩)) hnot
+    · obtain ⟨e, he, rfl⟩ := List.mem_map.mp hnew
+      have hm := List.mem_filter.mp he
+      exact ⟨e, hm.1, rfl, Or.inr ⟨hm.2, rfl⟩⟩
+
+end Renew
+
+theorem apply_createRenewal (r : Roas) (force : Bool) (thr : Nat) (mintS : Payload → ObjMeta)
+    (mintA : AggKey → ObjMeta) :
+    (r.apply (r.createRenewal force thr mintS mintA)).simple =
+      renewMap r.simple (fun e => force || decide (e.2.obj.expires < thr)) (fun e => ⟨[e.1], mintS e.1⟩) ∧
+    (r.apply (r.createRenewal force thr mintS mintA)).agg =
+      renewMap r.agg (fun e => force || decide (e.2.obj.expires < thr)) (fun e => ⟨e.2.auths, mintA e.1⟩) := by
+  simp [Roas.apply, Roas.createRenewal, Roas.planRenewal, RoaPlan.sign, eraseAll_nil, renewMap,
+    List.map_map, Function.comp_def]
+
+theorem renewal_exact (r : Roas) (hr : r.WF) (force : Bool) (thr : Nat)
+    (mintS : Payload → ObjMeta) (mintA : AggKey → ObjMeta) :
+    let r' := r.apply (r.createRenewal force thr mintS mintA)
+    (∀ p info, (p, info) ∈ r.simple →
+      ((force = true ∨ info.obj.expires < thr) → (p, ⟨[p], mintS p⟩) ∈ r'.simple) ∧
+      (¬ (force = true ∨ info.obj.expires < thr) → (p, info) ∈ r'.simple)) ∧
+    (∀ k info, (k, info) ∈ r.agg →
+      ((force = true ∨ info.obj.expires < thr) → (k, ⟨info.auths, mintA k⟩) ∈ r'.agg) ∧
+      (¬ (force = true ∨ info.obj.expires < thr) → (k, info) ∈ r'.agg)) ∧
+    (∀ p, p ∈ r'.payloads ↔ p ∈ r.payloads) ∧ r'.WF := by
+  intro r'
+  obtain ⟨hs, ha⟩ := apply_createRenewal r force thr mintS mintA
+  obtain ⟨s1, s2, s3⟩ := renewMap_spec r.simple hr.simpleKeys
+    (fun e => force || decide (e.2.obj.expires < thr)) (fun e => ⟨[e.1], mintS e.1⟩)
+  obtain ⟨a1, a2, a3⟩ := renewMap_spec r.agg hr.aggKeys
+    (fun e => force || decide (e.2.obj.expires < thr)) (fun e => ⟨e.2.auths, mintA e.1⟩)
+  have hP : ∀ (x : Nat), (force || decide (x < thr)) = true ↔ (force = true ∨ x < thr) := by
+    intro x; simp
+  -- auths of entries are preserved key by key
+  have sAuth : ∀ e' ∈ r'.simple, e'.2.auths = [e'.1] := by
+    intro e' he'
+    simp only [r'] at he'; rw [hs] at he'
+    obtain ⟨e, he, hk, h⟩ := s3 e' he'
+    rcases h with ⟨_, rfl⟩ | ⟨_, h2⟩
+    · exact hr.simpleAuth _ he
+    · rw [h2, hk]
+  have aSame : ∀ e' ∈ r'.agg, ∃ e ∈ r.agg, e'.1 = e.1 ∧ e'.2.auths = e.2.auths := by
+    intro e' he'
+    simp only [r'] at he'; rw [ha] at he'
+    obtain ⟨e, he, hk, h⟩ := a3 e' he'
+    rcases h with ⟨_, rfl⟩ | ⟨_, h2⟩
+    · exact ⟨_, he, rfl, rfl⟩
+    · exact ⟨e, he, hk, by rw [h2]⟩
+  refine ⟨?_, ?_, ?_, ?_⟩
+  · intro p info hin
+    simp only [r']; rw [hs]
+    have := s2 (p, info) hin
+    constructor
+    · intro h; exact this.1 ((hP _).mpr h)
+    · intro h; refine this.2 ?_
+      cases hb : (force || decide (info.obj.expires < thr))
+      · rfl
+      · exact absurd ((hP _).mp hb) h
+  · intro k info hin
+    simp only [r']; rw [ha]
+    have := a2 (k, info) hin
+    constructor
+    · intro h; exact this.1 ((hP _).mpr h)
+    · intro h; refine this.2 ?_
+      cases hb : (force || decide (info.obj.expires < thr))
+      · rfl
+      · exact absurd ((hP _).mp hb) h
+  · intro p
+    simp only [Roas.payloads, List.mem_append, List.mem_flatMap]
+    constructor
+    · rintro (⟨e', he', hp⟩ | ⟨e', he', hp⟩)
+      · left
+        have h1 := sAuth e' he'
+        simp only [r'] at he'; rw [hs] at he'
+        obtain ⟨e, he, hk, _⟩ := s3 e' he'
+        refine ⟨e, he, ?_⟩
+        rw [hr.simpleAuth e he, ← hk, ← h1]; exact hp
+      · right
+        obtain ⟨e, he, _, hau⟩ := aSame e' he'
+        exact ⟨e, he, hau ▸ hp⟩
+    · rintro (⟨e, he, hp⟩ | ⟨e, he, hp⟩)
+      · left
+        rw [hr.simpleAuth e he] at hp
+        cases hb : (force || decide (e.2.obj.expires < thr))
+        · exact ⟨e, by simp only [r']; rw [hs]; exact (s2 e he).2 hb, by rw [hr.simpleAuth e he]; exact hp⟩
+        · exact ⟨(e.1, ⟨[e.1], mintS e.1⟩), by simp only [r']; rw [hs]; exact (s2 e he).1 hb, hp⟩
+      · right
+        cases hb : (force || decide (e.2.obj.expires < thr))
+        · exact ⟨e, by simp only [r']; rw [ha]; exact (a2 e he).2 hb, hp⟩
+        · exact ⟨(e.1, ⟨e.2.auths, mintA e.1⟩), by simp only [r']; rw [ha]; exact (a2 e he).1 hb, hp⟩
+  · exact
+      { simpleKeys := by simp only [r']; rw [hs]; exact s1
+        aggKeys := by simp only [r']; rw [ha]; exact a1
+        simpleAuth := sAuth
+        aggGroup := by
+          intro e' he'
+          obtain ⟨e, he, hk, _⟩ := aSame e' he'
+          rw [hk]; exact hr.aggGroup e he
+        aggAsn := by
+          intro e' he' p hp
+          obtain ⟨e, he, hk, hau⟩ := aSame e' he'
+          rw [hk]; exact hr.aggAsn e he p (hau ▸ hp)
+        aggNodup := by
+          intro e' he'
+          obtain ⟨e, he, _, hau⟩ := aSame e' he'
+          rw [hau]; exact hr.aggNodup e he
+        aggNonempty := by
+          intro e' he'
+          obtain ⟨e, he, _, hau⟩ := aSame e' he'
+          rw [hau]; exact hr.aggNonempty e he
+        exclusive := by
+          rcases hr.exclusive with h | h
+          · left; simp only [r']; rw [hs, h]; rfl
+          · right; simp only [r']; rw [ha, h]; rfl }
 
 end KM.Ca.Pub
